@@ -1071,6 +1071,15 @@ func ruleReplayDoesNotWaitForSource(c *Ctx, p *Prog, rule string) {
 			if v == ssa.Value(replay) {
 				return IntC(k), true
 			}
+			// the state in which k bytes are waiting to be replayed
+			if base, f, ok := FieldLoad(v); ok && NamedTypeRel(base.Type()) == "agent/utils.bufferedReadSeeker" {
+				switch f {
+				case "readHead":
+					return IntC(0), true
+				case "writeHead":
+					return IntC(k), true
+				}
+			}
 			return nil, false
 		}
 	}
